@@ -151,6 +151,10 @@ def targetPortDescriptor : Block := ⟨"target_port_descriptor", 0, 4, [⟨"rela
 def rtpgExtHeader : Block := ⟨"rtpg_ext_header", 4, 4,
   [⟨"format_type", 4, 6, 3⟩, ⟨"implicit_transition_time", 5, 7, 8⟩]⟩
 
+/-- REPORT PRIORITY: priority descriptor header (SPC-4 table 273) -/
+def priorityDescriptor : Block := ⟨"priority_descriptor", 0, 8,
+  [⟨"current_priority", 0, 3, 4⟩, ⟨"rtpi", 2, 7, 16⟩, ⟨"adlen", 6, 7, 16⟩]⟩
+
 /-- READ ELEMENT STATUS: element status data header (SMC-3 table 40) -/
 def elementStatusHeader : Block := ⟨"element_status_header", 0, 8,
   [⟨"first_element_address", 0, 7, 16⟩, ⟨"num_elements", 2, 7, 16⟩, ⟨"byte_count", 5, 7, 24⟩]⟩
@@ -281,6 +285,7 @@ def blocks : List (Block × String × String) := [
   (lunEntry, "ReportLuns", "_datain_bits"),
   (tpgDescriptor, "ReportTargetPortGroups", "_tpgd_bits"),
   (rtpgExtHeader, "ReportTargetPortGroups", "_ext_hdr_bits"),
+  (priorityDescriptor, "ReportPriority", "_data_bits"),
   (elementStatusHeader, "ReadElementStatus", "_datain_bits"),
   (elementStatusPage, "ReadElementStatus", "_element_status_page_bits"),
   (elementDescriptor, "ReadElementStatus", "_element_status_descriptor_bits"),
@@ -315,6 +320,13 @@ def blocks : List (Block × String × String) := [
   (cdSectorHeader, "ReadCd", "_sh_bits"),
   (cdSubchannelQ, "ReadCd", "_sc2_bits")]
 
+
+/-- the 8-byte PERSISTENT RESERVE IN header (READ KEYS / READ RESERVATION) when nothing follows -/
+def prHeader : Block := ⟨"pr_header", 0, 8, [⟨"pr_generation", 0, 7, 32⟩, ⟨"additional_length", 4, 7, 32⟩]⟩
+
+/-- every block by name (for the line protocol) -/
+def allBlocks : List Block :=
+  (blocks.map (·.1)).foldl (fun acc b => if acc.any (·.name == b.name) then acc else acc ++ [b]) [] ++ [prHeader, targetPortDescriptor]
 
 /-! ## structured responses: headers with the standards' length fields, then the descriptors -/
 
